@@ -70,5 +70,5 @@ Example C02_nonvacuous :
   2 * Z.abs (1 * 2 ^ 16 - 6554 * 10) <= 10 /\
   trunc_r 4 0 (-7) = -1 /\ trunc_r 4 15 (-7) = 0.
 Proof.
-  repeat split; try reflexivity; try (intros H; discriminate H); try (vm_compute; intros H; discriminate H).
+  repeat split; try (intros H; discriminate H); try (vm_compute; reflexivity); try (vm_compute; intros H; discriminate H).
 Qed.
